@@ -196,6 +196,7 @@ def rand_table_actions(rnd, n):
 
 
 # ---------------------------------------------------------------------------
+SLOW = 90.0      # seconds
 FLOOD = 150      # mismatches in one chunk after which the rest of that replay is skipped (the verdict is already VIOLATION)
 
 
@@ -212,8 +213,10 @@ def replay_chunked(chk, exe, hs, tag, sig_prefix, isolate, chunk):
         n += k
         wall += w
         done += len(part)
-        if k > FLOOD and done < len(hs):
-            chk.log("%s: %d of %d cases of this chunk mismatch - skipping the remaining %d cases of this replay" % (tag, k, len(part), len(hs) - done))
+        # a change that makes calls hang costs one watchdog period per case (seeded/C17-07: 140 of 1500 cases, 30 s each):
+        # a chunk with mismatches that took longer than SLOW seconds ends the replay as well
+        if (k > FLOOD or (k > 0 and w > SLOW)) and done < len(hs):
+            chk.log("%s: %d of %d cases of this chunk mismatch (%.0f s) - skipping the remaining %d cases of this replay" % (tag, k, len(part), w, len(hs) - done))
             chk.cov.setdefault("replays_cut_short", []).append({"tag": tag, "replayed": done, "of": len(hs)})
             break
     return n, wall, done
@@ -221,7 +224,7 @@ def replay_chunked(chk, exe, hs, tag, sig_prefix, isolate, chunk):
 
 def replay_cases(chk, exe, cases, tag, isolate=200):
     hs = [[c] for c in cases]
-    n, wall, done = replay_chunked(chk, exe, hs, tag, SIG, isolate, 1500)
+    n, wall, done = replay_chunked(chk, exe, hs, tag, SIG, isolate, 100)
     chk.count_actions(hs)      # what was generated (a replay cut short by a flood of mismatches already is a VIOLATION)
     return n, wall
 
